@@ -25,6 +25,15 @@ def build_items(ctx, rnd, domain='visible'):
             chosen = [fs[0], fs[1], fs[2 + k % (len(fs) - 2)], fs[2 + (k + 3) % (len(fs) - 2)]]
         for f in chosen:
             items.append(('gl', ast, f, domain))
+    # written separators spelled with an escape: the pattern is no longer slash-less (MATCHBASE must not apply), segments stay segments
+    esc = ('sep', '\\/')
+    base = [x for x in pool if sum(1 for it in x if it[0] == 'sep' and it[1] == '/') >= 1 and len(x) <= 5][: (60 if ctx.quick else 400)]
+    for k, ast in enumerate(base):
+        idx = [i for i, it in enumerate(ast) if it[0] == 'sep' and it[1] == '/']
+        for variant in ({idx[0]}, set(idx)):
+            a2 = tuple(esc if i in variant else it for i, it in enumerate(ast))
+            for f in (fs[4], fs[8], fs[6], fs[0]):
+                items.append(('gl', a2, f, domain))
     # brackets whose ranges / classes span '/' without writing it, in several positions
     br = [b for b in gen.bracket_pool(ctx.tier, rnd) if any(a <= 47 <= c for a, c in b[3]) != b[2]]
     sl = ('sep', '/')
